@@ -17,6 +17,7 @@ from .common import doc
 from .c07_c08 import same_outcome
 
 MODES = ("async", "inline", "thread", "process")
+MODES6 = MODES + ("async_tag_inline", "async_tag_process")  # coroutine nodes that carry an (irrelevant) tag
 STATES = ("ok", "none", "shut")
 
 
@@ -100,7 +101,10 @@ def make_history() -> Any:
                 spec = _spec("chain", modes, False)
                 set_pools("ok", "ok")
             beh = Behaviour(sym, spec, sym_dur=False)
-            first = run_engine(spec, beh, Cfg(rev_taskset=False))
+            from ..harness import build_chart
+
+            chart = build_chart(spec, Cfg(rev_taskset=False))  # ONE chart / DAG object for both runs
+            first = run_engine(spec, beh, Cfg(rev_taskset=False), chart=chart)
             label = V.hang(first)
             if label is None and not (first.kind == "done" and first.error is None):
                 label = "first_run_failed:%s" % first.kind
@@ -108,7 +112,7 @@ def make_history() -> Any:
             if label is None:
                 with untraced():
                     set_pools(ts, ps)
-                second = run_engine(spec, beh, Cfg(rev_taskset=False))
+                second = run_engine(spec, beh, Cfg(rev_taskset=False), chart=chart)
                 missing = ("thread" in modes and ts != "ok") or ("process" in modes and ps != "ok")
                 label = V.hang(second)
                 if label is None and missing:
@@ -166,3 +170,36 @@ register(Job("C17", "registry_history", make_history(), tier="quick", budget_s=3
              doc={"template": "3-node chain, two runs; the registry state changes between them",
                   "symbolic": ["mode per node (64)", "registry state of each pool before the second run (9)", "caller input"],
                   "functions": F, "assumptions": A, "bounds": "2 runs, durations 0"}))
+
+
+def make_tagged() -> Any:
+    """Coroutine nodes that carry the non_async / process tag: the tag must not change how they run."""
+    def mk() -> Any:
+        def h(sym: Any) -> Tuple[str, Dict[str, Any]]:
+            modes = [MODES6[sym.choice("mode%d" % i, 6)] for i in range(3)]
+            with untraced():
+                spec = _spec("chain", modes, False)
+                base = _spec("chain", ["async"] * 3, False)
+                set_pools("ok", "ok")
+            beh = Behaviour(sym, spec, sym_dur=False)
+            obs = run_engine(spec, beh, Cfg(rev_taskset=False))
+            obs0 = run_engine(base, Behaviour(sym, base, sym_dur=False), Cfg(rev_taskset=False))
+            label = V.hang(obs)
+            if label is None:
+                lab = same_outcome(obs, obs0, strict_order=False)
+                if lab:
+                    label = "differs_from_all_coroutine:%s" % lab
+            goals = ["tagged_coroutine"] if any(m.startswith("async_tag") for m in modes) else []
+            info = {"digest": obs.digest() + [modes], "goals": goals, "summary": {"modes": modes, "engine": obs.kind}}
+            return (label or "ok"), info
+
+        return h
+
+    return mk
+
+
+register(Job("C17", "tagged_coroutines", make_tagged(), tier="quick", budget_s=300,
+             parts=[{"mode0": m} for m in range(6)], goals=("tagged_coroutine",),
+             doc={"template": "3-node chain; modes incl. coroutine nodes tagged non_async / process",
+                  "symbolic": ["mode per node (216 assignments)", "caller input"], "functions": F, "assumptions": A,
+                  "bounds": "3 nodes, pools registered, durations 0"}))
